@@ -1297,6 +1297,9 @@ impl HelperAttributeKinds {
 
     fn is_match(&self, attr: &Attribute) -> bool {
         let p = attr.path();
+        if is_derive_ex_path(p) {
+            return self.derive_ex;
+        }
         let Some(i) = p.get_ident() else {
             return false;
         };
@@ -1528,10 +1531,20 @@ fn remove_attrs(attrs: &mut Vec<Attribute>, kinds: &HelperAttributeKinds) {
     attrs.retain(|attr| !kinds.is_match(attr));
 }
 
+/// `derive_ex`, or the same attribute written with its crate path (`derive_ex::derive_ex`, `::derive_ex::derive_ex`).
+fn is_derive_ex_path(path: &Path) -> bool {
+    let n = path.segments.len();
+    (n == 1 && path.leading_colon.is_none() || n == 2)
+        && path
+            .segments
+            .iter()
+            .all(|s| s.ident == "derive_ex" && s.arguments.is_none())
+}
+
 fn parse_derive_ex_attrs<T: Parse>(attrs: &[Attribute]) -> Result<Vec<T>> {
     let mut items = Vec::new();
     for attr in attrs {
-        if attr.path() == &parse_quote!(derive_ex) {
+        if is_derive_ex_path(attr.path()) {
             items.push(attr.parse_args()?);
         }
     }
